@@ -349,6 +349,7 @@ def run(tier, seed):
                 'the in-memory caches are compared after every op, and at each fully flushed state every '
                 'observable is compared with the Lean specification of the indexed chain; non-trivial = the '
                 'case contains a flush or back-out and at least one specification checkpoint')
+    tall_chain_probe(res, seed)
     groups = collision_groups(seed, tier)
     n_cases = 60 if tier == 'quick' else 1500
     for i in range(n_cases):
@@ -377,6 +378,52 @@ def run(tier, seed):
 def replay(case):
     return ['replay of index cases: re-run the check with the same VERIF_SEED; the failing case is '
             + case.get('where', '?')]
+
+
+def tall_chain_probe(res, seed):
+    """Direct C15 oracle on a chain that crosses height 256 (undo keys are ordered by big-endian height;
+    the start-up pruning scan relies on key order = height order): restarts at 250, 258 and 264 with
+    reorg limit 10 must each leave undo rows for exactly the last 10 heights, and a back-out of
+    limit blocks must then succeed.  Real code only (no model lines: 265 blocks of dumps would
+    dominate the run)."""
+    rng = rng_for(seed, 'index-tall')
+    gen = Gen(rng, 1000)
+    lim = 10
+    real = RealIndex(1000, lim)
+    try:
+        real.open()
+        tip = None
+        chain = []
+        for stop in (250, 258, 264):
+            while len(chain) <= stop:
+                tip = gen.new_block(tip, max_txs=0 if len(chain) % 50 else 2)
+                if real.advance(tip, len(chain)) != 'ok':
+                    res.harness_errors.append('tall chain: advance failed')
+                    return
+                chain.append(tip)
+            real.flush(True)
+            real.open()
+            got = real.undo_heights()
+            want = list(range(stop - lim + 1, stop + 1))
+            res.bump('tall_chain_restarts')
+            if got != want:
+                res.violations.append({
+                    'suite': 'index', 'tags': ['window'], 'where': 'tall chain probe',
+                    'clause': 'C15: undo information older than the window survives start-up'
+                              if set(got) - set(want) else 'C15: a block within the reorg limit of the tip cannot be undone',
+                    'detail': f'after a start at height {stop} with reorg limit {lim} the DB holds undo rows for heights '
+                              f'{got[:4]}..{got[-3:]} ({len(got)} rows), expected exactly {want[0]}..{want[-1]}'})
+                return
+        for _ in range(lim):
+            r = real.backup(chain[-1])
+            if r != 'ok':
+                res.violations.append({'suite': 'index', 'tags': ['window'], 'where': 'tall chain probe',
+                                       'clause': 'C15: a block within the reorg limit of the tip cannot be undone',
+                                       'detail': f'{r} backing out height {len(chain) - 1} of a chain of height 264'})
+                return
+            chain.pop()
+    finally:
+        real.destroy()
 
 
 def known_reproduces(finding):
